@@ -98,6 +98,10 @@ func generateConfig(r *rand.Rand, dumphook string, feedURLs []string) genConfig 
 	// two files in five are meant to be accepted: values from the accepted ranges (their edges included), no planted errors -
 	// "safe to run with" needs accepted files, and most of what the other branches write is rejected
 	validMode := r.Intn(5) < 2
+	badKey := ""
+	if validMode && r.Intn(3) == 0 {
+		badKey = []string{"preload_amount", "timeout_seconds", "cache_size"}[r.Intn(3)]
+	}
 	present := func(key string) bool {
 		if r.Intn(3) == 0 {
 			g.Absent = append(g.Absent, key)
@@ -247,7 +251,13 @@ func generateConfig(r *rand.Rand, dumphook string, feedURLs []string) genConfig 
 			wroteNet = true
 		}
 		v := intValue()
-		if k == "timeout_seconds" && validMode && r.Intn(4) == 0 {
+		if validMode && k == badKey {
+			// the one deviation of an otherwise acceptable file: each limit is tried on its own
+			v = []string{"0", "0", "-1", "-5", "65537", "9223372037", "9223372036854775807", "-9223372036854775808"}[r.Intn(8)]
+			if strings.HasPrefix(v, "-") || v == "0" {
+				g.Notes = append(g.Notes, k+"="+v)
+			}
+		} else if k == "timeout_seconds" && validMode && r.Intn(4) == 0 {
 			v = []string{"0", "1", "60", "9223372036"}[r.Intn(4)]
 		}
 		if k == "preload_amount" && validMode && r.Intn(6) == 0 {
